@@ -532,6 +532,22 @@ func c19Gen(r *rand.Rand, kind string) c19Case {
 		default:
 			c.DepRepo = target.URL
 		}
+		if r.Intn(3) == 0 {
+			// an EARLIER credential-less repository on a related origin lists the same absolute
+			// URL as the (private) repository the chart depends on: scanReposForURL picks it
+			tu, _ := url.Parse(target.URL)
+			_, s2, h2 := c19Variant(r, tu.Scheme, tu.Host)
+			abs := s2 + "://" + h2 + "/charts/a-1.0.0.tgz"
+			priv := c19Repo{Name: "private", URL: target.URL, User: "user-private", Pass: fmt.Sprintf("pw-private-%d", r.Intn(1000)),
+				PassAll: r.Intn(6) == 0, URLs: []string{abs}}
+			pub := c19Repo{Name: "public", URL: s2 + "://" + h2 + "/charts", URLs: []string{abs}}
+			if pub.URL == priv.URL {
+				pub.URL += "/mirror"
+			}
+			c.Repos = []c19Repo{pub, priv}
+			c.DepRepo, c.AdhocURLs = priv.URL, nil
+			resolved = abs
+		}
 		c19MaybeRedirect(r, &c, resolved)
 	}
 	if r.Intn(12) == 0 {
@@ -604,6 +620,11 @@ func (*c19) Corpus() []any {
 			{Name: "public", URL: "https://public.example/charts", URLs: []string{"https://public.example/charts/a-1.0.0.tgz"}},
 			{Name: "private", URL: "https://private.corp.test/charts", User: "user-private", Pass: "pw-private", URLs: []string{"https://public.example/charts/a-1.0.0.tgz"}}},
 			Note: "manager-foreign-owner"},
+		// the same with an owner that differs from the private repository in the scheme only
+		c19Case{Kind: "manager", DepRepo: "https://private.corp.test/charts", SkipUpdate: true, Repos: []c19Repo{
+			{Name: "plain", URL: "http://private.corp.test/charts", URLs: []string{"http://private.corp.test/charts/a-1.0.0.tgz"}},
+			{Name: "private", URL: "https://private.corp.test/charts", User: "user-private", Pass: "pw-private", URLs: []string{"http://private.corp.test/charts/a-1.0.0.tgz"}}},
+			Note: "manager-foreign-owner-scheme"},
 		// net/http keeps the Authorization header when redirected to the same host name on
 		// another port / scheme or to a sub-domain
 		c19Case{Kind: "getter", Ctor: []c19Opt{{K: "url", A: "https://repo.example/charts"}, {K: "auth", A: "user-g", B: "pw-g"}},
